@@ -16,7 +16,7 @@ CLAIMS = {
   technique="runtime monitoring: two-route bit-equality monitor over generated sets, orders, chunkings, containers and apply histories",
   ref="DESIGN.md §2 C02"),
  "C03": dict(
-  text="Held on the executions observed: pipelines generated from an AST (never parsed by the harness) equal the reference interpreter that applies each step as a stand-alone operator, forward and inverse, bit for bit and in count, for every modifier spelling on elementary, single-step-macro and pipeline-macro steps nested to depth 4 (thorough 8); the trace hook's executed/skipped step sequence and per-step counts equal the model's.",
+  text="Held on the executions observed: pipelines generated from an AST (never parsed by the harness) equal the reference interpreter that applies each step as a stand-alone operator, forward and inverse, bit for bit and in count, for every modifier spelling on elementary, single-step-macro and pipeline-macro steps nested to depth 4 (thorough 8), including steps without an inverse (curvature, gravity) marked forward-only or left unmarked; the trace hook's executed/skipped step sequence and per-step counts equal the model's.",
   note="Trusts the stand-alone elementary operators (checked by C01/C02) and the 40-line reference interpreter; stack steps are excluded here (C12).",
   technique="runtime monitoring: executable reference model over generated programs, plus online trace-specification check on hooked step events",
   ref="DESIGN.md §2 C03"),
@@ -57,7 +57,7 @@ CLAIMS = {
   technique="runtime monitoring: executable reference model (abstract stack machine) over exhaustively enumerated short programs and random long ones; online check of hooked stack depth",
   ref="DESIGN.md §2 C12"),
  "C13": dict(
-  text="Held on the executions observed: x_0/y_0 are added forward and removed inverse, lon_0 (lonc) in degrees equals shifting the input longitude, k_0 and the semi-major axis scale the unshifted plane linearly (1e-12 relative), utm/butm equal tmerc/btmerc with the UTM constants for all 60 zones and both hemispheres in both directions, merc on a sphere equals webmerc, lat_ts equals its k_0, one-parallel lcc equals two equal parallels, noop aliases leave hostile tuples bit-identical.",
+  text="Held on the executions observed: x_0/y_0 are added forward and removed inverse, lon_0 (lonc) in degrees equals shifting the input longitude, k_0 and the semi-major axis scale the unshifted plane linearly (1e-12 relative), utm/butm equal tmerc/btmerc with the UTM constants for all 60 zones and both hemispheres in both directions, merc on a sphere equals webmerc in both directions, lat_ts equals its k_0, one-parallel lcc equals two equal parallels, noop aliases leave hostile tuples bit-identical.",
   note="Pairs of differently parameterised instances inside one build; which projection accepts which parameter is read from the gamut hook.",
   technique="runtime monitoring: two-route agreement monitor over pairs of parameterisations",
   ref="DESIGN.md §2 C13"),
@@ -77,18 +77,18 @@ CLAIMS = {
   technique="runtime monitoring: crash/hang monitor (write-ahead event log, catch_unwind, CPU-time watchdog, supervisor) over hostile workloads",
   ref="DESIGN.md §1.4, §2 C09"),
  "C15": dict(
-  text="Held on the executions observed: harness-encoded Gravsoft grids (any comment/whitespace/line layout, 1-3 bands, angular or projected) and NTv2 files (both byte orders, 1-6 sub grids in any order) decode to the geometry and node values written, after the documented conventions, the two byte orders decode identically, and the shipped .gsb files equal a plain reading of their .gsa twins; a damage campaign (every 7th truncation length and every 5th header byte x 8 bits of every shipped file below 64 KiB in the quick tier, all of them in the thorough tier; random truncations, overwrites, splices, bit flips, structural damage of sub grid names/parents/counts/increments, degenerate Gravsoft headers, wrong decoder) followed by 96 queries per accepted file never panics, aborts, hangs or allocates more than 64 x input + 16 MiB, in debug-semantics and release-semantics builds.",
+  text="Held on the executions observed: harness-encoded Gravsoft grids (any comment/whitespace/line layout, 1-3 bands, angular or projected) and NTv2 files (both byte orders, 1-6 sub grids in any order, square and oblong cells) decode to the geometry and node values written, after the documented conventions, the two byte orders decode identically, and the shipped .gsb files equal a plain reading of their .gsa twins; a damage campaign (every 7th truncation length and every 5th header byte x 8 bits of every shipped file below 64 KiB in the quick tier, all of them in the thorough tier; random truncations, overwrites, splices, bit flips, structural damage of sub grid names/parents/counts/increments, degenerate Gravsoft headers, wrong decoder) followed by 96 queries per accepted file never panics, aborts, hangs or allocates more than 64 x input + 16 MiB, in debug-semantics and release-semantics builds.",
   note="Allocation is observed with a counting global allocator in the harness; out-of-bounds reads would surface as panics (safe Rust). Structural damage includes sub grids named NONE, cyclic and unknown parents, duplicate names.",
   technique="runtime monitoring: encode-decode-query round trip against a reference model, plus crash/hang/allocation monitor over a fault-injection campaign on file contents",
   category="fault_enumeration",
   ref="DESIGN.md §2 C15"),
  "C16": dict(
-  text="Held on the executions observed: eight layout variants per generated AST (whitespace runs of blank/tab/CR/LF/CRLF around = , | : < >, continuation colons, comments on own lines / trailing / with and without bars and look-alike parameters, modifiers prefix/infix/suffix and =true, subscript digits, </> sugar, empty steps) instantiate in Minimal and Plain to operators with the canonical text's behaviour (bit-identical both directions), step lists and per-step parameters (names, flags, naturals, integers, reals by bits, series, texts), for single steps and pipelines; normalize is idempotent; a registered user operator with every parameter kind reads back exactly what was written in 40 real / 22 integer spellings (decimal, exponent, sexagesimal with hemisphere letters, overflow, multi-byte, empty) or is rejected with BadParam/MissingParam naming the first offending parameter, defaults, last-of-repeated and ignored unknown keys included; every built-in numeric or flag parameter rejects an ill-typed value with BadParam naming it.",
+  text="Held on the executions observed: eight layout variants per generated AST (whitespace runs of blank/tab/CR/LF/CRLF and non-ASCII white space around = , | : < >, continuation colons, comments on own lines / trailing / with and without bars and look-alike parameters, modifiers prefix/infix/suffix and =true, subscript digits, </> sugar, empty steps) instantiate in Minimal and Plain to operators with the canonical text's behaviour (bit-identical both directions), step lists and per-step parameters (names, flags, naturals, integers, reals by bits, series, texts), for single steps and pipelines, and the omit_fwd/omit_inv flags of every step read back as written; normalize is idempotent; a registered user operator with every parameter kind reads back exactly what was written in 40 real / 22 integer spellings (decimal, exponent, sexagesimal with hemisphere letters, overflow, multi-byte, empty) or is rejected with BadParam/MissingParam naming the first offending parameter, defaults, last-of-repeated and ignored unknown keys included; every built-in numeric or flag parameter rejects an ill-typed value with BadParam naming it.",
   note="Well-formed means: steps start with a name; a value does not start or end with a separator (an empty value or a trailing comma/colon swallows the following word, which the generator therefore does not produce except at the end).",
   technique="runtime monitoring: two-route agreement over layout variants of one AST, plus executable model of the typing rules read back through the introspection API",
   ref="DESIGN.md §2 C16"),
  "C17": dict(
-  text="Held on the executions observed: PROJ texts rendered from an AST (single steps and pipelines of 1-5 steps over utm, tmerc, merc, lcc, laea, cart, helmert, axisswap, unitconvert, noop, addone; + prefixes or not, any token order, blank/tab/LF/CRLF layout, comments, step and pipeline inv, omit_fwd/omit_inv, pipeline globals including a+rf, a+rf and k in steps) instantiate in Plain to the same operation as the reference Geodesy text written from the same AST without parsing: bit-identical results and counts both directions and equal step lists; the translation is idempotent; text without PROJ syntax is returned byte-identical, Geodesy text that merely mentions 'proj' keeps its behaviour (also as a pipeline step), init clauses and nested pipelines are refused with Error::Unsupported.",
+  text="Held on the executions observed: PROJ texts rendered from an AST (single steps and pipelines of 1-5 steps over utm, tmerc, merc, lcc, laea, cart, helmert, axisswap, unitconvert, noop, addone; + prefixes or not, any token order, blank/tab/LF/CRLF layout, comments, step and pipeline inv, omit_fwd/omit_inv, pipeline globals including a+rf and valueless flags, a+rf and k in steps) instantiate in Plain to the same operation as the reference Geodesy text written from the same AST without parsing: bit-identical results and counts both directions and equal step lists; the translation is idempotent; text without PROJ syntax is returned byte-identical, Geodesy text that merely mentions 'proj' keeps its behaviour (also as a pipeline step), init clauses and nested pipelines are refused with Error::Unsupported.",
   note="The reference translation implements the rules of the property statement (order kept, globals before locals, pipeline inv = reverse + toggle inv + exchange omit flags, a,rf -> ellps, k -> k_0).",
   technique="runtime monitoring: executable reference translation from a shared AST, differential against the library's translation at the behavioural level",
   ref="DESIGN.md §2 C17"),
